@@ -14,7 +14,7 @@ PUT_SITES = ["posix.putobject.bodywritten", "posix.objversion.copied", "posix.ob
              "posix.link.published", "posix.putobject.linked", "posix.putobject.done"]
 CMU_SITES = ["posix.objversion.copied", "posix.objversion.stored", "posix.cmu.beforelink", "posix.link.enter", "posix.link.named", "posix.link.beforerename", "posix.link.published", "posix.cmu.linked", "posix.cmu.beforecleanup"]
 PART_SITES = ["posix.link.enter", "posix.link.named", "posix.link.beforerename", "posix.link.published"]
-DEL_SITES = ["posix.deleteobject.beforeremove", "posix.deleteobject.removed", "posix.objversion.copied", "posix.objversion.stored", "posix.deleteobject.marker.between"]
+DEL_SITES = ["posix.deleteobject.beforeremove", "posix.deleteobject.removed", "posix.objversion.copied", "posix.objversion.stored", "posix.deleteobject.marker.between", "posix.deleteobject.marker.set"]
 # model step index of the site within its operation (Model/Crash.v): the number of steps completed when the process dies
 STEP_OF = {"posix.putobject.bodywritten": 1, "posix.objversion.copied": 1, "posix.objversion.stored": 2, "posix.putobject.beforelink": 2, "posix.cmu.beforelink": 2, "posix.link.enter": 2, "posix.link.named": 2,
            "posix.link.beforerename": 2, "posix.link.published": 3, "posix.putobject.linked": 3, "posix.putobject.done": 3, "posix.cmu.linked": 3, "posix.cmu.beforecleanup": 3,
@@ -36,7 +36,7 @@ def run(chk):
     mcases = []
     dcases = []          # directory-object uploads: (existing, attribute writes completed, class 0 missing / 1 old / 2 new / 9 neither)
     vcases = []          # DeleteObject in a versioned bucket: (steps completed, key still reads the old data, the old version still shown)
-    VSTEP_OF = {"posix.objversion.stored": 1, "posix.deleteobject.marker.between": 2}
+    VSTEP_OF = {"posix.objversion.stored": 1, "posix.deleteobject.marker.between": 2, "posix.deleteobject.marker.set": 3}
     pcases = []          # DeleteObject ?versionId=<current>: (steps completed, what the key reads: 2 current / 1 previous / 0 nothing / 9 else, entries listed)
     PSTEP_OF = {"posix.link.enter": 1, "posix.link.named": 1, "posix.link.beforerename": 1, "posix.link.published": 2}
     nb = [0]
@@ -157,7 +157,7 @@ def run(chk):
                                     "previous" if state == "old" else "new", gn_.status, gn_.code, cn_[:2], wantn[1]))
                         if opname == "delete-version" and site_ in PSTEP_OF:
                             row["pcase"] = (PSTEP_OF[site_], {"new": 2, "old": 1, "missing": 0}.get(state, 9), len(ids))
-                        if opname == "delete" and site_ in VSTEP_OF:
+                        if opname == "delete" and not suspended and site_ in VSTEP_OF:
                             row["vcase"] = (VSTEP_OF[site_], state == "old", gv0.status == 200 and gv0.body == body_of(old) and listed0)
                     # every other case goes straight to emptying and deleting the bucket: what the killed request left behind must not
                     # need another request on the same key to be cleared away
@@ -235,7 +235,7 @@ def run(chk):
             for opname, sites in (("put-new", PUT_SITES), ("put-overwrite", PUT_SITES), ("copy", PUT_SITES), ("multipart-new", CMU_SITES), ("multipart-overwrite", CMU_SITES),
                                   ("uploadpart-new", PART_SITES), ("uploadpart-again", PART_SITES), ("delete", DEL_SITES)) + (
                                   (("put-overwrite-prever", PUT_SITES), ("multipart-overwrite-prever", CMU_SITES), ("delete-prever", DEL_SITES), ("delete-version", PART_SITES),
-                                   ("put-overwrite-suspended", PUT_SITES), ("multipart-overwrite-suspended", CMU_SITES)) if versioned else ()):
+                                   ("put-overwrite-suspended", PUT_SITES), ("multipart-overwrite-suspended", CMU_SITES), ("delete-suspended", DEL_SITES)) if versioned else ()):
                 for s_ in sites:
                     wid += 1
                     row = scenario(opname, s_, wid)
